@@ -196,20 +196,14 @@ def filter_fn(src, name):
 # normalised text of the functions the model was written against (white space and comments removed)
 PINNED = {
     SRC: {
-        r"SimpleString\s+CommandLineArguments::getParameterField\s*\([^)]*\)\s*\{":
-            'size_t parameterLength=parameterName.size();SimpleString parameter(av[i]);if(parameter.size()>parameterLength)return av[i]+parameterLength;else if(i+1<ac)return av[++i];return"";',
-        r"void\s+CommandLineArguments::setRepeatCount\s*\([^)]*\)\s*\{":
-            'repeat_=0;SimpleString repeatParameter(av[i]);if(repeatParameter.size()>2)repeat_=(size_t)(SimpleString::AtoI(av[i]+2));else if(i+1<ac){repeat_=(size_t)(SimpleString::AtoI(av[i+1]));if(repeat_!=0)i++;}if(0==repeat_)repeat_=2;',
-        r"bool\s+CommandLineArguments::setShuffle\s*\([^)]*\)\s*\{":
-            'shuffling_=true;shuffleSeed_=(unsigned int)GetPlatformSpecificTimeInMillis();if(shuffleSeed_==0)shuffleSeed_++;SimpleString shuffleParameter=av[i];if(shuffleParameter.size()>2){shufflingPreSeeded_=true;shuffleSeed_=SimpleString::AtoU(av[i]+2);}else if(i+1<ac){unsigned int parsedParameter=SimpleString::AtoU(av[i+1]);if(parsedParameter!=0){shufflingPreSeeded_=true;shuffleSeed_=parsedParameter;i++;}}return(shuffleSeed_!=0);',
-        r"bool\s+CommandLineArguments::addGroupDotNameFilter\s*\([^)]*\)\s*\{":
-            'SimpleString groupDotName=getParameterField(ac,av,i,parameterName);SimpleStringCollection collection;groupDotName.split(".",collection);if(collection.size()!=2)return false;TestFilter*groupFilter=new TestFilter(collection[0].subString(0,collection[0].size()-1));TestFilter*nameFilter=new TestFilter(collection[1]);if(strict){groupFilter->strictMatching();nameFilter->strictMatching();}if(exclude){groupFilter->invertMatching();nameFilter->invertMatching();}groupFilters_=groupFilter->add(groupFilters_);nameFilters_=nameFilter->add(nameFilters_);return true;',
-        r"void\s+CommandLineArguments::addTestToRunBasedOnVerboseOutput\s*\([^)]*\)\s*\{":
-            "SimpleString wholename=getParameterField(ac,av,index,parameterName);SimpleString testname=wholename.subStringFromTill(',',')');testname=testname.subString(2);TestFilter*namefilter=new TestFilter(testname);TestFilter*groupfilter=new TestFilter(wholename.subStringFromTill(wholename.at(0),','));namefilter->strictMatching();groupfilter->strictMatching();groupFilters_=groupfilter->add(groupFilters_);nameFilters_=namefilter->add(nameFilters_);",
-        r"void\s+CommandLineArguments::setPackageName\s*\([^)]*\)\s*\{":
-            'SimpleString packageName=getParameterField(ac,av,i,"-k");if(packageName.size()==0)return;packageName_=packageName;',
-        r"bool\s+CommandLineArguments::setOutputType\s*\([^)]*\)\s*\{":
-            'SimpleString outputType=getParameterField(ac,av,i,"-o");if(outputType.size()==0)return false;if(outputType=="normal"||outputType=="eclipse"){outputType_=OUTPUT_ECLIPSE;return true;}if(outputType=="junit"){outputType_=OUTPUT_JUNIT;return true;}if(outputType=="teamcity"){outputType_=OUTPUT_TEAMCITY;return true;}return false;',
+    },
+    "src/CppUTest/TestFilter.cpp": {
+        r"TestFilter::TestFilter\s*\(\s*const\s+SimpleString\s*&\s*filter\s*\)\s*:\s*strictMatching_\(false\)\s*,\s*invertMatching_\(false\)\s*,\s*next_\(NULLPTR\)\s*\{":
+            'filter_=filter;',
+        r"TestFilter\s*\*\s*TestFilter::add\s*\([^)]*\)\s*\{": 'next_=filter;return this;',
+        r"void\s+TestFilter::strictMatching\s*\(\s*\)\s*\{": 'strictMatching_=true;',
+        r"void\s+TestFilter::invertMatching\s*\(\s*\)\s*\{": 'invertMatching_=true;',
+        r"TestFilter\s*\*\s*TestFilter::getNext\s*\(\s*\)\s*const\s*\{": 'return next_;',
     },
     "src/CppUTest/TestPlugin.cpp": {
         r"bool\s+TestPlugin::parseAllArguments\s*\(\s*int\s+ac\s*,\s*const\s+char[^)]*\)\s*\{":
@@ -224,12 +218,6 @@ PINNED = {
             'int result=0;ConsoleTestOutput backupOutput;MemoryLeakWarningPlugin memLeakWarn(DEF_PLUGIN_MEM_LEAK);memLeakWarn.destroyGlobalDetectorAndTurnOffMemoryLeakDetectionInDestructor(true);TestRegistry::getCurrentRegistry()->installPlugin(&memLeakWarn);{CommandLineTestRunner runner(ac,av,TestRegistry::getCurrentRegistry());result=runner.runAllTestsMain();}if(result==0){backupOutput<<memLeakWarn.FinalReport(0);}TestRegistry::getCurrentRegistry()->removePluginByName(DEF_PLUGIN_MEM_LEAK);return result;',
         r"int\s+CommandLineTestRunner::runAllTestsMain\s*\(\s*\)\s*\{":
             'int testResult=1;SetPointerPlugin pPlugin(DEF_PLUGIN_SET_POINTER);registry_->installPlugin(&pPlugin);if(parseArguments(registry_->getFirstPlugin()))testResult=runAllTests();registry_->removePluginByName(DEF_PLUGIN_SET_POINTER);return testResult;',
-        r"void\s+CommandLineTestRunner::initializeTestRun\s*\(\s*\)\s*\{":
-            'registry_->setGroupFilters(arguments_->getGroupFilters());registry_->setNameFilters(arguments_->getNameFilters());if(arguments_->isVerbose())output_->verbose(TestOutput::level_verbose);if(arguments_->isVeryVerbose())output_->verbose(TestOutput::level_veryVerbose);if(arguments_->isColor())output_->color();if(arguments_->runTestsInSeperateProcess())registry_->setRunTestsInSeperateProcess();if(arguments_->isRunIgnored())registry_->setRunIgnored();if(arguments_->isCrashingOnFail())UtestShell::setCrashOnFail();UtestShell::setRethrowExceptions(arguments_->isRethrowingExceptions());',
-        r"int\s+CommandLineTestRunner::runAllTests\s*\(\s*\)\s*\{":
-            'initializeTestRun();size_t loopCount=0;size_t failedTestCount=0;size_t failedExecutionCount=0;size_t repeatCount=arguments_->getRepeatCount();if(arguments_->isListingTestGroupNames()){TestResult tr(*output_);registry_->listTestGroupNames(tr);return 0;}if(arguments_->isListingTestGroupAndCaseNames()){TestResult tr(*output_);registry_->listTestGroupAndCaseNames(tr);return 0;}if(arguments_->isListingTestLocations()){TestResult tr(*output_);registry_->listTestLocations(tr);return 0;}if(arguments_->isReversing())registry_->reverseTests();if(arguments_->isShuffling()){output_->print("Test order shuffling enabled with seed: ");output_->print(arguments_->getShuffleSeed());output_->print("\\n");}while(loopCount++<repeatCount){if(arguments_->isShuffling())registry_->shuffleTests(arguments_->getShuffleSeed());output_->printTestRun(loopCount,repeatCount);TestResult tr(*output_);registry_->runAllTests(tr);failedTestCount+=tr.getFailureCount();if(tr.isFailure()){failedExecutionCount++;}}return(int)(failedTestCount!=0?failedTestCount:failedExecutionCount);',
-        r"bool\s+CommandLineTestRunner::parseArguments\s*\(\s*TestPlugin\s*\*\s*plugin\s*\)\s*\{":
-            'if(!arguments_->parse(plugin)){output_=createConsoleOutput();output_->print((arguments_->needHelp())?arguments_->help():arguments_->usage());return false;}if(arguments_->isJUnitOutput()){output_=createJUnitOutput(arguments_->getPackageName());if(arguments_->isVerbose()||arguments_->isVeryVerbose())output_=createCompositeOutput(output_,createConsoleOutput());}else if(arguments_->isTeamCityOutput()){output_=createTeamCityOutput();}else output_=createConsoleOutput();return true;',
     },
 }
 
